@@ -9,6 +9,7 @@ import (
 	"fmt"
 	"os"
 	"path/filepath"
+	"regexp"
 	"sort"
 	"strings"
 	"time"
@@ -100,7 +101,11 @@ func (r *Result) Floor(rule string, found, floor int) {
 	}
 }
 
+var ssaTempName = regexp.MustCompile(`\bt[0-9]+\b`)
+
 func sanitizeSite(s string) string {
+	// SSA register numbers change with unrelated edits of the function: not part of a key
+	s = ssaTempName.ReplaceAllString(s, "t")
 	s = strings.ReplaceAll(s, " ", "")
 	s = strings.ReplaceAll(s, "\t", "")
 	s = strings.ReplaceAll(s, "\n", "")
